@@ -631,6 +631,31 @@ func init() {
 				w := r.next()
 				h := r.next()
 				s.SetWidthHeight(w, h)
+			case k == 260:
+				// the next key is observed twice: right after Update returns (the hook program it may have started is slow, so the
+				// "Opening ..." state is still on the screen) and again once everything has settled
+				kk := r.next()
+				s.Update(byte(kk))
+				snap := s.VerifSnap()
+				fmu.Lock()
+				fr, ll, lf := frames, lastLines, lastFrame
+				fmu.Unlock()
+				pid := -1
+				if key := s.VerifPageKey(); key != nil {
+					if id, ok := pageIDs[key]; ok {
+						pid = id
+					} else {
+						pid = len(pageIDs)
+						pageIDs[key] = pid
+					}
+				}
+				out = append(out, snap.Mode)
+				out = putText(out, snap.Buffer)
+				out = append(out, pid, itemID(snap.Current), snap.Lower, snap.Upper, b2i(snap.LoadingUp), b2i(snap.LoadingDown), fr, ll)
+				if itemID(snap.Current) == 999 {
+					lf = ""
+				}
+				out = putText(out, lf)
 			}
 			observe()
 		}
